@@ -1,17 +1,76 @@
+#![allow(dead_code)]
+//! `vf` — driver of the deterministic-simulation checks (see /verif/DESIGN.md).
+mod checks;
+mod common;
+mod par;
+mod rng;
+mod worker;
+
+use common::*;
+
+fn usage() -> ! {
+    eprintln!("usage: vf check <id> [--tier quick|thorough] | vf replay <file> | vf selftest <name>");
+    std::process::exit(2)
+}
+
+fn run() -> Result<i32, Harness> {
+    let args: Vec<String> = std::env::args().skip(1).collect();
+    let mut cfg = Cfg::from_env();
+    let mut pos = Vec::new();
+    let mut it = args.iter();
+    while let Some(a) = it.next() {
+        match a.as_str() {
+            "--tier" => {
+                cfg.tier = match it.next().map(|s| s.as_str()) {
+                    Some("thorough") => Tier::Thorough,
+                    Some("quick") => Tier::Quick,
+                    _ => usage(),
+                }
+            }
+            "--seed" => cfg.seed = it.next().and_then(|s| s.parse().ok()).unwrap_or_else(|| usage()),
+            _ => pos.push(a.clone()),
+        }
+    }
+    println!("VERIF_SEED={} tier={} workers={}", cfg.seed, cfg.tier.name(), cfg.workers);
+    match pos.first().map(|s| s.as_str()) {
+        Some("check") => match pos.get(1).map(|s| s.as_str()) {
+            Some("C18") => checks::c18::check(&cfg),
+            _ => usage(),
+        },
+        Some("replay") => {
+            let p = pos.get(1).unwrap_or_else(|| usage());
+            let v: Violation = serde_json::from_str(&std::fs::read_to_string(p)?)?;
+            let got = match v.property.as_str() {
+                "C18" => checks::c18::replay(&cfg, &v)?,
+                other => return Err(Harness(format!("no replay for {other}"))),
+            };
+            match got {
+                Some((class, detail)) => {
+                    println!("VIOLATION property={} replay={} class={} detail={}", v.property, p, class, detail);
+                    if class != v.class {
+                        println!("note: recorded class was {}", v.class);
+                    }
+                    Ok(1)
+                }
+                None => {
+                    println!("replay of {p}: property held (no violation reproduced)");
+                    Ok(0)
+                }
+            }
+        }
+        _ => usage(),
+    }
+}
+
 fn main() {
-    let exe = std::path::PathBuf::from(std::env::args().nth(1).unwrap());
-    let sb = simos::Sandbox::new(&simos::tracer::scratch_base().join("w0"), &exe).unwrap();
-    let w = simos::World {
-        files: vec![simos::FileSpec::file("w/f.json", "{\"a\": 1}\n", 0o644)],
-        cwd: "w".into(),
-        env: vec![],
-        argv: vec!["-i".into(), ".a".into(), "f.json".into()],
-        ..Default::default()
+    let code = match run() {
+        Ok(c) => c,
+        Err(e) => {
+            eprintln!("HARNESS-ERROR: {}", e.0);
+            2
+        }
     };
-    let t = std::time::Instant::now();
-    let h = simos::run(&sb, &w).unwrap();
-    eprintln!("{:?}", t.elapsed());
-    for o in &h.ops { println!("{:?} {} {:?} {:?} fd={:?} obj={:?} ret={} {:?}", o.seq, o.name, o.path, o.path2, o.fd, o.obj, o.ret, o.injected); }
-    println!("{:?} {:?} {:?}", h.exit, String::from_utf8_lossy(&h.stdout.0), String::from_utf8_lossy(&h.stderr.0));
-    for (p, f) in &h.files_after { println!("{p} {:o} {:?}", f.mode, String::from_utf8_lossy(&f.bytes.0)); }
+    // sandboxes are removed by their owners' Drop; remove the per-process base as well
+    let _ = std::fs::remove_dir_all(simos::tracer::scratch_base());
+    std::process::exit(code)
 }
